@@ -2387,6 +2387,7 @@ impl VmGreenThread {
                     parent: self.id,
                     child: new_thread.id,
                     ncaptures,
+                    child_heap_size: new_thread.heap_size,
                 });
                 self.new_threads_sender.send(new_thread.into()).unwrap();
             }
